@@ -338,6 +338,7 @@ func main() {
 		class, msg, replay string
 	}
 	var found []verdict
+	transient := 0
 	for _, c := range crashes {
 		op := filepath.Join(outDir, fmt.Sprintf("crash-%d.json", c.index))
 		env := []string{"VERIF_PROP=" + prop, "VERIF_TIER=" + *tier, fmt.Sprintf("VERIF_SEED=%d", seed),
@@ -348,7 +349,22 @@ func main() {
 		env = append(env, "VERIF_WATCHDOG_S="+watchdogS)
 		o, err := run(verif, env, perWorkerTimeout, bin, "-test.run", "^TestWorker$", "-test.timeout", "0")
 		if _, rerr := os.ReadFile(op); rerr == nil || err == nil {
-			infraMsgs = append(infraMsgs, fmt.Sprintf("worker crash at run %d did not reproduce in a fresh process:\n%s", c.index, c.log))
+			// The run that was being executed when the worker died completes in a fresh
+			// process, and the rest of the worker's range was continued: nothing is left
+			// unexplored. A death that does not reproduce is an environment event (e.g. the
+			// kernel's OOM killer while several workers hold multi-gigabyte buffers that
+			// C11's inputs legitimately declare); it is noted, and only a pile-up is trouble.
+			transient++
+			fmt.Fprintf(os.Stderr, "NOTE: a worker died while executing run %d; the run completes in a fresh process and was counted there. Last output of the dead worker: %s\n", c.index, lastLines(c.log, 6))
+			if data, derr := os.ReadFile(op); derr == nil {
+				var wo workerOut
+				if json.Unmarshal(data, &wo) == nil {
+					outs = append(outs, wo)
+				}
+			}
+			if transient > 3 {
+				infraMsgs = append(infraMsgs, fmt.Sprintf("%d worker deaths that do not reproduce; last at run %d:\n%s", transient, c.index, c.log))
+			}
 			continue
 		}
 		where := crashSite(o)
@@ -571,4 +587,21 @@ func crashSite(dump string) string {
 		}
 	}
 	return ""
+}
+
+func lastLines(s string, n int) string {
+	var keep []string
+	for _, l := range strings.Split(strings.TrimSpace(s), "\n") {
+		if strings.HasPrefix(l, "[]byte{") {
+			continue
+		}
+		if len(l) > 300 {
+			l = l[:300]
+		}
+		keep = append(keep, l)
+	}
+	if len(keep) > n {
+		keep = keep[len(keep)-n:]
+	}
+	return strings.Join(keep, " | ")
 }
